@@ -609,10 +609,20 @@ def case_execute(p, ctx):
                 firsts.append(row)
         ctx.check(len(firsts) <= len(xs) <= len(values), "execute:database",
                   f"{len(xs)} database entries for {len(values)} samples ({len(firsts)} distinct)")
+        if p["settings"].get("normalize_design_space"):
+            # the functions then work in normalised coordinates: a sample is recorded as unnormalize(normalize(sample)),
+            # i.e. up to the round-off of the affine round trip (8 ulp of the bounds' magnitude), not bit for bit
+            slack = 8 * np.finfo(float).eps * np.maximum(1.0, np.maximum(np.abs(lb), np.abs(ub)))
+
+            def same_point(a, b):
+                return a.shape == b.shape and bool(np.all(np.abs(a - b) <= slack))
+        else:
+            def same_point(a, b):
+                return bool(np.array_equal(a, b))
         for x in xs:
-            ctx.check(x.shape == (lb.size,) and any(np.array_equal(x, f) for f in firsts), "execute:database", f"database point {x!r} is not a sample")
+            ctx.check(x.shape == (lb.size,) and any(same_point(x, f) for f in firsts), "execute:database", f"database point {x!r} is not a sample")
         if len(xs) == len(firsts):
-            ctx.check(all(np.array_equal(x, f) for x, f in zip(xs, firsts)), "execute:database", "database points are not in the order of the samples")
+            ctx.check(all(same_point(x, f) for x, f in zip(xs, firsts)), "execute:database", "database points are not in the order of the samples")
         if len(firsts) < len(values):
             ctx.cls("duplicated_samples")
     else:
